@@ -223,11 +223,43 @@ def analyse_recorded(src, name):
             states.append([int(context.header_started is True), int(context.header_parsed is True), len(context.header), n, n])
         return r
     CheckHeader.run = wrapped
+    from norminette.registry import Registry
+    orig_rr, st = _record_turns()
     try:
         res = impl.analyse(src, name)
     finally:
         CheckHeader.run = orig
+        Registry.run_rules = orig_rr
+    TURNS.append((st["turns"], st["calls"]))
     return res, events, states
+
+
+TURNS = []      # filled by analyse_recorded: per analysed file, (matched turns [(name, jump)], calls [(name, window types, ret, jump)])
+
+
+def _record_turns():
+    """wrap Registry.run_rules from outside: top-level calls on primaries only"""
+    from norminette.registry import Registry
+    from norminette.rules import Primary
+    orig = Registry.run_rules
+    state = {"depth": 0, "turns": [], "calls": []}
+
+    def rr(self, context, rule):
+        top = state["depth"] == 0
+        window = [t.type for t in context.tokens[:60]] if top else None
+        state["depth"] += 1
+        try:
+            r = orig(self, context, rule)
+        finally:
+            state["depth"] -= 1
+        if top and isinstance(rule, type) and issubclass(rule, Primary) and context.state == "running":
+            if rule.__name__ in ("IsComment", "IsPreprocessorStatement") and len(state["calls"]) < 60:
+                state["calls"].append((rule.__name__, window, bool(r[0] is True), int(r[1]) if isinstance(r[1], int) else -999))
+            if r[0] is True and len(state["turns"]) < 14:
+                state["turns"].append((rule.__name__, int(r[1]), window))
+        return r
+    Registry.run_rules = rr
+    return orig, state
 
 
 def count_invalid(res):
@@ -295,6 +327,25 @@ def model_traces(traces):
              % ";\n  ".join("[" + "; ".join(ev(e) for e in t) + "]" for t in ch) for ch in chunks(traces, 60)]
     out = []
     for r, ch in zip(coq_eval(files), chunks(traces, 60)):
+        out += [r] * len(ch) if isinstance(r, str) else r
+    return out
+
+
+def model_primaries(windows):
+    """windows: [token type list] -> [[ispreproc_prefix code], [iscomment b, jump], [turn code]] from the generated Gen/IsComment.v"""
+    pre = ("From NV Require Import Model.Base Model.Lexer Model.RuleChecks Model.EngineTok0 Model.Engine Model.RegistryOrder "
+           "Gen.IsComment Model.EngineTok.\n"
+           "Definition oz (o : option (bool * Z)) : list Z := match o with None => [-1] | Some (b, j) => [if b then 1 else 0; j] end.\n"
+           "Definition tz (o : option tryres) : list Z := match o with None => [-1] | Some NoMatch => [0] "
+           "| Some (Matched n j) => [1; if str_eqb n (s \"IsComment\") then 1 else if str_eqb n (s \"IsPreprocessorStatement\") then 2 else 0; j] "
+           "| Some _ => [-2] end.\n")
+    names = sorted({t for w in windows for t in w})
+    pre += "".join("Definition ty_%d : str := s \"%s\".\n" % (k, n) for k, n in enumerate(names))
+    idx = {n: k for k, n in enumerate(names)}
+    files = [pre + "Definition ws : list (list token) :=\n [%s].\nEval vm_compute in (map (fun w => [oz (ispreproc_prefix w); oz (Some (iscomment_run w)); tz (turn primaries_order w)]) ws).\n"
+             % ";\n  ".join("[" + "; ".join("mk_tok ty_%d 0 0" % idx[t] for t in w) + "]" for w in ch) for ch in chunks(windows, 150)]
+    out = []
+    for r, ch in zip(coq_eval(files), chunks(windows, 150)):
         out += [r] * len(ch) if isinstance(r, str) else r
     return out
 
@@ -395,7 +446,8 @@ def run(run, tier, seed, replay=None):
                     cases.append((lab, kind, name, text + body, 1, "C13-comments-only", f))
 
     # ---- the implementation on every case: the property itself, and the recorded events
-    traces, recorded = [], []
+    traces, recorded, turn_records = [], [], []
+    del TURNS[:]
     for lab, kind, name, src, expected, fid, f in cases:
         res, events, states = analyse_recorded(src, name)
         data = {"mutation": lab, "body": kind, "name": name, "src": src, "expected": expected, "finding": fid, "fields": f}
@@ -425,6 +477,14 @@ def run(run, tier, seed, replay=None):
             run.count("correspondence: leading comment lines -> events", 1, 1)
         traces.append(events)
         recorded.append((states, data))
+        # the parser half of file -> trace: on a well-formed header the first eleven turns are IsComment, two tokens each
+        turns_k, calls_k = TURNS[-1]
+        if f is not None and lab == "well-formed":
+            first = [(n_, j_) for n_, j_, _ in turns_k[:11]]
+            if first != [("IsComment", 2)] * 11:
+                found |= run.violation("correspondence-header-turns", dict(data, recorded_turns=first))
+            run.count("correspondence: first eleven turns of a well-formed header are (IsComment, 2)", 1, 1)
+        turn_records.append((turns_k, calls_k, data))
     if cases:
         run.sample({"mutation": cases[-1][0], "body": cases[-1][1], "file_head": cases[-1][3][:200]})
 
@@ -442,6 +502,42 @@ def run(run, tier, seed, replay=None):
             if m != st:
                 found |= run.violation("correspondence-state-machine", dict(data, events=ev[:14], model=m[:14], implementation=st[:14]))
         run.count("correspondence: state machine on recorded events (distinct traces)", len(items), len(items))
+
+    # ---- correspondence (iv): the generated IsComment / IsPreprocessorStatement-prefix / one turn, on the recorded token windows
+    wins = {}
+    for turns_k, calls_k, data in turn_records:
+        for nme, w, ret_, jump_ in calls_k:
+            if w:
+                wins.setdefault(tuple(w), {"data": data, "calls": {}, "turn": None})["calls"][nme] = (ret_, jump_)
+        for nme, jump_, w in turns_k:
+            if w and tuple(w) in wins:
+                wins[tuple(w)]["turn"] = (nme, jump_)
+    wl = list(wins)
+    if len(wl) > (1500 if tier == "quick" else 12000):
+        wl = rnd.sample(wl, 1500 if tier == "quick" else 12000)
+    if b.make_ok and wl:
+        for w, m in zip(wl, model_primaries([list(w) for w in wl])):
+            if isinstance(m, str):
+                found |= run.violation("correspondence-primaries-model-failed", {"error": m})
+                break
+            rec = wins[w]
+            pp, ic, tn = m
+            bad = None
+            if "IsComment" in rec["calls"]:
+                ret_, jump_ = rec["calls"]["IsComment"]
+                if [int(ret_), jump_ if ret_ else 0] != ic and not (len(w) == 60 and ic[1] >= 59):
+                    bad = ("IsComment.run", [int(ret_), jump_], ic)
+            if "IsPreprocessorStatement" in rec["calls"] and pp != [-1]:
+                ret_, jump_ = rec["calls"]["IsPreprocessorStatement"]
+                if [int(ret_), jump_] != pp:
+                    bad = ("IsPreprocessorStatement.run (prefix)", [int(ret_), jump_], pp)
+            if rec["turn"] is not None and tn[0] == 1:
+                nid = {"IsComment": 1, "IsPreprocessorStatement": 2}.get(rec["turn"][0], 0)
+                if [1, nid, rec["turn"][1]] != tn:
+                    bad = ("Registry.run turn", list(rec["turn"]), tn)
+            if bad:
+                found |= run.violation("correspondence-primaries", dict(rec["data"], window=list(w)[:12], what=bad[0], implementation=bad[1], model=bad[2]))
+        run.count("correspondence: IsComment / IsPreprocessorStatement prefix / turn on recorded token windows (distinct)", len(wl), len(wl))
 
     # ---- correspondence (i): the expression
     regex_texts = list(dict.fromkeys(regex_texts))
